@@ -147,6 +147,18 @@ PROPS = {
                 "message bytes equal the reference encoding. Non-trivial: the assignment hits >= 1 variable and the template has >= 2 variables or depth >= 2.",
         "assumptions": COMMON_ASSUMPTIONS,
     },
+    "C11": {
+        "level": "exploration",
+        "jobs": [{"test": "TestC11", "kind": "rapid", "quick": 100000, "thorough": 480000}],
+        "floors": {"op:observe": ("job:TestC11", 0.5), "op:decode": ("job:TestC11", 0.3), "op:fill": ("job:TestC11", 0.5)},
+        "rule": "rapid-generated histories (2..30 steps) over a growing pool of items, data messages and control messages: build an item from generated arguments (then overwrite the "
+                "argument slices), build a list sharing pooled items, FillVariables on a pooled item/message (then overwrite and extend the map), NewDataMessage/NewHSMSDataMessage from a "
+                "pooled item, SetWaitBit, SetSessionIDAndSystemBytes (then overwrite the passed bytes), observers ToBytes/Variables/SystemBytes (then overwrite every returned slice in place), "
+                "hsms.Parse of pooled bytes (then overwrite the input buffer), control-message constructors (then overwrite header / system-bytes argument), responses from pooled requests. "
+                "Oracle (history invariant): after every step the snapshot (String, ToBytes, Variables, Size, Name, codes, wait bit, direction, session id, system bytes, Header, Type) of every "
+                "pooled object equals the snapshot taken when it entered the pool. Non-trivial: >= 1 in-place write and >= 1 derivation; distinct = FNV-64 of the history.",
+        "assumptions": COMMON_ASSUMPTIONS,
+    },
     "C02": {
         "level": "exploration",
         "jobs": [
@@ -174,6 +186,11 @@ NOT_APPLICABLE = {}
 
 _PBT = "property-based testing (pgregory.net/rapid generators + shrinking)"
 MANIFEST_TEXT = {
+    "C11": {
+        "technique": "stateful " + _PBT + ": generated API-call histories over an object pool with in-place mutation of every argument / returned slice; snapshot invariant after every step",
+        "level_text": "History exploration: the whole operation sequence is one shrinkable value; an aliasing bug shows up as a changed snapshot of an older pooled object.",
+        "level_note": "Trusted: the snapshot covers every public observer; mutation through reflection/unsafe is out of scope.",
+    },
     "C09": {
         "technique": "model-based " + _PBT + ": reference substitution model + metamorphic composition law (k partial fills == one fill with the union)",
         "level_text": "Generated templates, assignments and partitions; result compared with direct construction through the factories on four observers, refusal equivalence, composition law.",
